@@ -716,10 +716,21 @@ class CoreScenario(Scenario):
             if e == bid:
                 group += [b["bid"] for b in n["branches"]]
         for t in a.transactions:
-            if t in a.branches or self.inside(t, encl) or not self.run(t, obs):
+            if self.inside(t, encl) or not self.run(t, obs):
                 continue
             if encl in a.tree_methods.get(t, []) or t == encl:
                 continue  # a caller of the enclosing body is part of the same merged transaction
+            if t in a.branches:
+                # a branch of a condition() somewhere else (in a method): it is outside when a caller of that
+                # method which does not belong to the enclosing body runs
+                root = t
+                while a.bodies[root].parent is not None:
+                    root = a.bodies[root].parent
+                if root == encl or self.inside(root, encl):
+                    continue
+                if root in a.mdefs and not any(c != encl and not self.inside(c, encl) and self.run(c, obs)
+                                               for c in a.trans_for.get(root, [])):
+                    continue
             if any(a.method_relation(b, t)[0] != "NOT" for b in group):
                 self.hit("cond_earlier_branch_lost_callee_to_outside_transaction")
                 return True
